@@ -30,7 +30,7 @@ def make(rd, tier, seed, ev):
     if tier == 'quick':
         import random
         random.Random(seed).shuffle(cases)
-        cases = [c for c in cases if c.get('fam') not in ('range', 'enum')][:200] + [c for c in cases if c.get('fam') == 'range'][:150] + [c for c in cases if c.get('fam') == 'enum']
+        cases = [c for c in cases if c.get('fam') not in ('range', 'enum', 'downcast')][:200] + [c for c in cases if c.get('fam') == 'range'][:150] + [c for c in cases if c.get('fam') in ('enum', 'downcast')]
     named = []
     for i, c in enumerate(cases):
         name = 'ob%04d' % i
@@ -50,7 +50,7 @@ def run(tier, seed):
     return plancheck.run_plan(PROP, tier, seed,
         rule='class tables (chain, fork, a class with two supertypes), three instance creations, an object variable declared '
              'after two or three of them, one constraint (a field value, equality / disequality with an instance, a field through '
-             'a chain of two variables, a relation on a field that is itself a variable bounded differently by the constructor body of every instance; enum types with 1-3 values including another enum or not, 2-5 variables that must be pairwise different, equality with a variable of the included enum), all enumerated by ObjGen.tla with the reference semantics; the variable\'s domain at its '
+             'a chain of two variables, a relation on a field that is itself a variable bounded differently by the constructor body of every instance; enum types with 1-3 values including another enum or not, 2-5 variables that must be pairwise different, equality with a variable of the included enum; a variable of a supertype passed to a predicate parameter of a subtype whose rule constrains the parameter), all enumerated by ObjGen.tla with the reference semantics; the variable\'s domain at its '
              'declaration (from the object-variable definition hook) must be exactly the instances of its type and subtypes '
              'created so far, the program must be solvable iff some instance fits, and the chosen instance must be one that fits; '
              'plus programs pinning constructor / initialiser-list / field-initialiser / nested-type / field-chain values. '
